@@ -10,6 +10,7 @@ TRUSTED = [
     "tzlocal depends on the C library's localtime(); modelled for POSIX-rule TZ settings only",
 ]
 ASSUMPTIONS = [
+    "offsets and derived dstoffsets are strictly within ±24 h (CPython raises ValueError from utcoffset()/dst() otherwise; not modelled)",
     "tzfile theorems need WF (Spec.wf): strictly increasing transitions whose set-backs do not overlap; the run reports how many real tables violate it (expected 0)",
     "instants at or after the last version-1 transition are required only when the last transition's type is the zone's ttinfo_std (14 real files end on a DST type; the code answers ttinfo_std there by design)",
     "range zones: theorem roundtrip_range_partial needs 0 < saving and instants whose wall-clock year equals their UTC year (tzrangebase looks transitions up by either); negative saving is the known finding D-C05r",
